@@ -65,7 +65,8 @@ abbrev Outputs := List (String × Int)
 
 inductive LoaderKind where
   | default   -- `loaders.get_object_loader()`
-  | custom    -- an `ObjectLoader` passed by the user
+  | custom    -- an `ObjectLoader` instance passed by the user
+  | fresh     -- a default-constructed instance of that loader's class (what a bundle that recorded the class yields)
   deriving DecidableEq, Repr
 
 structure Loaders where
@@ -83,10 +84,19 @@ inductive PersKind where
 structure Config where
   persister : Option PersKind       -- `none` = `persister=None`
   loader : Option LoaderKind        -- the `loader=` argument; `none` = not given
+  /-- the loader carried by a caller-supplied `load_context=`; `none` = no load context given, or one without loader -/
+  ctxLoader : Option LoaderKind := none
   deriving DecidableEq, Repr
 
 /-- `self._loader` -/
 def Config.launchLoader (cfg : Config) : LoaderKind := cfg.loader.getD .default
+
+/-- the loader of `self._load_context`: `__init__` takes the caller's load context (or an empty one) and, when a
+`loader` is given, overrides its loader with it (`copyextend(loader=loader)`) -/
+def Config.contextLoader (cfg : Config) : Option LoaderKind :=
+  match cfg.loader with
+  | some l => some l
+  | none => cfg.ctxLoader
 
 /-- the loader of the persister's save context -/
 def Config.saveLoader (cfg : Config) : Option LoaderKind :=
@@ -108,8 +118,9 @@ structure Proc where
   pos : Nat
 
 inductive Outcome where
-  | outputs (o : Outputs)
-  | raised (e : String)
+  | outputs (o : Outputs)   -- FINISHED: `future().result()` is the outputs
+  | raised (e : String)     -- EXCEPTED: it raises the exception of the process (class `e`)
+  | killed                  -- KILLED (by whoever, while it ran): it raises `KilledError`
 
 structure Runtime where
   /-- `proc_class(*init_args, **init_kwargs)`: `.error c` = the constructor raises an exception of class `c` -/
@@ -147,12 +158,20 @@ def bundle (L : Loaders) (saveLoader : Option LoaderKind) (p : Proc) : Checkpoin
   { ident := L.identify (saveLoader.getD .default) p.cls, recorded := saveLoader, pid := p.pid, origin := p.origin,
     init := p.init, pos := p.pos }
 
-/-- `_ensure_object_loader`: 1) the loader of the load context (present iff the launcher was given one), 2) the one
-recorded in the saved state, 3) the global default -/
+/-- the bundle records the loader's CLASS; loading instantiates it without arguments -/
+def instanceOfClassOf : LoaderKind → LoaderKind
+  | .default => .default
+  | .custom => .fresh
+  | .fresh => .fresh
+
+/-- `_ensure_object_loader`: 1) the loader of the load context, 2) a new instance of the loader class recorded in the
+saved state, 3) the global default -/
 def loadLoader (cfg : Config) (c : Checkpoint) : LoaderKind :=
-  match cfg.loader with
+  match cfg.contextLoader with
   | some l => l
-  | none => c.recorded.getD .default
+  | none => match c.recorded with
+    | some l => instanceOfClassOf l
+    | none => .default
 
 def recreate (c : Checkpoint) (cls : ClassId) : Proc :=
   { pid := c.pid, cls := cls, origin := c.origin, init := c.init, pos := c.pos }
@@ -164,7 +183,8 @@ inductive Err where
   | unknownIdentifier   -- `load_object` raised ValueError
   | noCheckpoint        -- `load_checkpoint` raised (KeyError / FileNotFoundError)
   | ctor (e : String)   -- the constructor raised
-  | proc (e : String)   -- the process did not finish: `future().result()` raised
+  | proc (e : String)   -- the process ended excepted: `future().result()` raised its exception
+  | killed              -- the process was killed: `future().result()` raised `KilledError`
   deriving DecidableEq, Repr
 
 inductive Reply where
@@ -200,6 +220,7 @@ def Step.fail (s : State) (e : Err) (pre : List Event := []) : Step := { reply :
 def replyOf : Outcome → Reply
   | .outputs o => .outputs o
   | .raised e => .error (.proc e)
+  | .killed => .error .killed
 
 /-- the tail of `_launch` and `_continue`: `if nowait: ensure_future(...); return proc.pid` else run and report -/
 def finish (R : Runtime) (s : State) (pre : List Event) (p : Proc) (nowait : Bool) : Step :=
